@@ -23,6 +23,10 @@ def gen_calls(rng, n):
             c["kwargs"]["num_anneals"] = 1
         if "seed" not in c["kwargs"]:
             c["kwargs"]["seed"] = rng.randint(0, 10 ** 6)
+        if rng.random() < 0.12:
+            # the largest seeds a C int holds, with several anneals (any per-anneal arithmetic on the seed must not overflow)
+            c["kwargs"]["seed"] = 2 ** 31 - 1 - rng.randint(0, 2)
+            c["kwargs"]["num_anneals"] = max(c["kwargs"].get("num_anneals", 1), rng.choice([2, 3, 5]))
         # stale models: a reported variable that occurs in no term
         if c["kind"] != "dict" and rng.random() < 0.25:
             matrix = c["kind"].endswith("Matrix")
